@@ -474,8 +474,9 @@ pub fn run_c08(ctx: &mut Ctx) {
 
 /// Small workload for the UB interpreter: table keys (from the hooked statics, not from JSON)
 /// through maximize/minimize with the algebraic laws; covers all six `unsafe` lookups.
+#[cfg(feature = "hooks")]
 pub fn run_likely_miri(ctx: &mut Ctx) {
-    use unic_langid_impl::verif_hooks as hk;
+    let tb = crate::hooktab::load();
     let stride = if ctx.quick() { 16 } else { 1 };
     let (sh, n) = (ctx.shard, ctx.nshards);
     fn d64(x: u64) -> String {
@@ -483,44 +484,42 @@ pub fn run_likely_miri(ctx: &mut Ctx) {
         let k = b.iter().position(|c| *c == 0).unwrap_or(8);
         String::from_utf8_lossy(&b[..k]).into_owned()
     }
-    fn d32(x: u32) -> String {
-        let b = x.to_le_bytes();
-        let k = b.iter().position(|c| *c == 0).unwrap_or(4);
-        String::from_utf8_lossy(&b[..k]).into_owned()
+    fn d32(x: u64) -> String {
+        d64(x)
     }
-    let mut keys: Vec<(Option<String>, Option<String>, Option<String>, (Option<u64>, Option<u32>, Option<u32>), &'static str)> = vec![];
+    let mut keys: Vec<(Option<String>, Option<String>, Option<String>, crate::hooktab::NVal, &'static str)> = vec![];
     let mut idx = 0usize;
     let take = |idx: &mut usize| -> bool {
         let t = (*idx / stride) % n == sh && *idx % stride == 0;
         *idx += 1;
         t
     };
-    for (k, v) in hk::LANG_ONLY.iter() {
+    for (k, v) in tb.lang_only.iter() {
         if take(&mut idx) {
             keys.push((Some(d64(*k)), None, None, *v, "LANG_ONLY"));
         }
     }
-    for (k, r, v) in hk::LANG_REGION.iter() {
+    for (k, r, v) in tb.lang_region.iter() {
         if take(&mut idx) {
             keys.push((Some(d64(*k)), None, Some(d32(*r)), *v, "LANG_REGION"));
         }
     }
-    for (k, s, v) in hk::LANG_SCRIPT.iter() {
+    for (k, s, v) in tb.lang_script.iter() {
         if take(&mut idx) {
             keys.push((Some(d64(*k)), Some(d32(*s)), None, *v, "LANG_SCRIPT"));
         }
     }
-    for (s, r, v) in hk::SCRIPT_REGION.iter() {
+    for (s, r, v) in tb.script_region.iter() {
         if take(&mut idx) {
             keys.push((None, Some(d32(*s)), Some(d32(*r)), *v, "SCRIPT_REGION"));
         }
     }
-    for (s, v) in hk::SCRIPT_ONLY.iter() {
+    for (s, v) in tb.script_only.iter() {
         if take(&mut idx) {
             keys.push((None, Some(d32(*s)), None, *v, "SCRIPT_ONLY"));
         }
     }
-    for (r, v) in hk::REGION_ONLY.iter() {
+    for (r, v) in tb.region_only.iter() {
         if take(&mut idx) {
             keys.push((None, None, Some(d32(*r)), *v, "REGION_ONLY"));
         }
